@@ -1,2 +1,3 @@
 pub mod kb;
 pub mod lru;
+pub mod query;
